@@ -182,13 +182,34 @@ func (vc *VC) run() {
 		params = append(params, v)
 	}
 	vc.topParams = params
-	fx := vc.newFuncCtx(fn, params, nil)
+	// a function literal verified on its own: each captured variable is a cell with an arbitrary (well-typed) value
+	var freevars []Val
+	for _, fv := range fn.FreeVars {
+		elem := fv.Type().(*types.Pointer).Elem()
+		ref := vc.freshRef()
+		pv := &PtrV{Kind: PHeap, Base: ref, Key: typeKey(elem), Elem: elem}
+		v, facts := vc.freshVal("fv:"+fv.Name(), elem)
+		for _, f := range facts {
+			vc.addGlobalFact(f)
+		}
+		vc.paramFacts(v, elem)
+		st.storeKey(PHeap, pv.Key, ref, nil, elem, v)
+		freevars = append(freevars, pv)
+	}
+	fx := vc.newFuncCtx(fn, params, freevars)
 	fx.top = true
 	fx.fc = fc
 	fx.locals = map[string]*PtrV{}
 	sig := fn.Signature
 	env := &SpecEnv{vc: vc, st: st, old: st, vars: map[string]*SV{}, pkg: vc.prog.typesPkgOf(fc)}
 	vc.bindParams(env, fc, sig, params)
+	for i, fv := range fn.FreeVars {
+		// captured variables are visible to the contract under their own names (their value at entry)
+		pv := freevars[i].(*PtrV)
+		if _, shadow := env.vars[fv.Name()]; !shadow {
+			env.vars[fv.Name()] = &SV{V: st.load(pv), T: pv.Elem}
+		}
+	}
 	for n, v := range env.vars {
 		vc.params[n] = v
 	}
